@@ -261,6 +261,32 @@ impl<K: Eq + Hash, V> HashMap<K, V> {
         self.reindex();
         Some(v)
     }
+    /// (further std methods, so that changes to the crate that use them still build with the hooks)
+    pub fn retain(&mut self, mut f: impl FnMut(&K, &mut V) -> bool) {
+        let order = next_order(self.items.len());
+        let mut keep = vec![true; self.items.len()];
+        for i in order {
+            let (k, v) = &mut self.items[i];
+            keep[i] = f(k, v);
+        }
+        let mut it = keep.into_iter();
+        self.items.retain(|_| it.next().unwrap_or(true));
+        self.reindex();
+    }
+    pub fn clear(&mut self) {
+        self.items.clear();
+        self.index.clear();
+    }
+    pub fn drain(&mut self) -> std::vec::IntoIter<(K, V)> {
+        self.index.clear();
+        permuted(std::mem::take(&mut self.items)).into_iter()
+    }
+    pub fn iter_mut(&mut self) -> std::vec::IntoIter<(&K, &mut V)> {
+        permuted(self.items.iter_mut().map(|(k, v)| (&*k, v)).collect()).into_iter()
+    }
+    pub fn values_mut(&mut self) -> std::vec::IntoIter<&mut V> {
+        permuted(self.items.iter_mut().map(|(_, v)| v).collect()).into_iter()
+    }
     pub fn entry(&mut self, k: K) -> Entry<'_, K, V> {
         match self.position(&k) {
             Some(i) => Entry::Occupied(&mut self.items[i].1),
@@ -372,6 +398,54 @@ impl<T: Eq + Hash> HashSet<T> {
         T: Borrow<Q>,
     {
         self.position(v).is_some()
+    }
+    /// (further std methods, so that changes to the crate that use them still build with the hooks)
+    pub fn get<Q: ?Sized + Eq + Hash>(&self, v: &Q) -> Option<&T>
+    where
+        T: Borrow<Q>,
+    {
+        self.position(v).map(|i| &self.items[i])
+    }
+    pub fn retain(&mut self, mut f: impl FnMut(&T) -> bool) {
+        let order = next_order(self.items.len());
+        let mut keep = vec![true; self.items.len()];
+        for i in order {
+            keep[i] = f(&self.items[i]);
+        }
+        let mut it = keep.into_iter();
+        self.items.retain(|_| it.next().unwrap_or(true));
+        self.index.clear();
+        for (j, x) in self.items.iter().enumerate() {
+            self.index.entry(hash_of(x)).or_default().push(j);
+        }
+    }
+    pub fn clear(&mut self) {
+        self.items.clear();
+        self.index.clear();
+    }
+    pub fn drain(&mut self) -> std::vec::IntoIter<T> {
+        self.index.clear();
+        permuted(std::mem::take(&mut self.items)).into_iter()
+    }
+    pub fn is_subset(&self, other: &Self) -> bool {
+        self.items.iter().all(|v| other.position(v).is_some())
+    }
+    pub fn is_superset(&self, other: &Self) -> bool {
+        other.is_subset(self)
+    }
+    pub fn is_disjoint(&self, other: &Self) -> bool {
+        self.items.iter().all(|v| other.position(v).is_none())
+    }
+    pub fn union<'a>(&'a self, other: &'a Self) -> std::vec::IntoIter<&'a T> {
+        let mut v: Vec<&T> = self.items.iter().collect();
+        v.extend(other.items.iter().filter(|x| self.position(*x).is_none()));
+        permuted(v).into_iter()
+    }
+    pub fn intersection<'a>(&'a self, other: &'a Self) -> std::vec::IntoIter<&'a T> {
+        permuted(self.items.iter().filter(|x| other.position(*x).is_some()).collect()).into_iter()
+    }
+    pub fn difference<'a>(&'a self, other: &'a Self) -> std::vec::IntoIter<&'a T> {
+        permuted(self.items.iter().filter(|x| other.position(*x).is_none()).collect()).into_iter()
     }
     pub fn remove<Q: ?Sized + Eq + Hash>(&mut self, v: &Q) -> bool
     where
